@@ -102,8 +102,7 @@ package bcl
 //@   ensures result != nil && len(result.lfs) == 0
 //
 //@ func (*lineCalc).lineColAt
-//@   requires increasing: forall i int, j int :: 0 <= i && i < j && j < len(lc.lfs) ==> lc.lfs[i] < lc.lfs[j]
-//@   ensures counting: exists j int :: 0 <= j && j <= len(lc.lfs) &&
+//@   ensures counting: (forall i int, j int :: 0 <= i && i < j && j < len(lc.lfs) ==> lc.lfs[i] < lc.lfs[j]) ==> exists j int :: 0 <= j && j <= len(lc.lfs) &&
 //@       (forall i int :: 0 <= i && i < j ==> lc.lfs[i] < pos) &&
 //@       (forall i int :: j <= i && i < len(lc.lfs) ==> lc.lfs[i] >= pos) &&
 //@       result0 == j + 1 && result1 == (j == 0 ? pos + 1 : pos - lc.lfs[j-1])
